@@ -152,6 +152,46 @@ Theorem C10_view_dispatch {A} (ps : list A) constrained :
 Proof. exact (view_dispatch ps constrained). Qed.
 Print Assumptions C10_view_dispatch.
 
+(* a whole SPE request: the estimator produces the suggestions only when the experiment is past its initialisation phase, has more than
+   1.7 observations per open suggestion and the estimator could be formed ... *)
+Theorem C10_spe_view_estimator_iff {A} (ps : list A) constrained init obs open formed :
+  spe_view_sampler ps constrained init obs open formed = SEstimator <->
+  init = false /\ sample_randomly obs open = false /\ formed = true.
+Proof. exact (spe_view_estimator_iff ps constrained init obs open formed). Qed.
+Print Assumptions C10_spe_view_estimator_iff.
+
+(* ... and EVERY other route (initialisation phase, many open suggestions, too little data for the estimator) is a random-suggestion path
+   that draws from the priors iff priors are supplied and the domain is unconstrained *)
+Theorem C10_spe_view_random_routes {A} (ps : list A) constrained init obs open formed :
+  init = true \/ sample_randomly obs open = true \/ formed = false ->
+  spe_view_sampler ps constrained init obs open formed = random_sampler ps constrained /\
+  (spe_view_sampler ps constrained init obs open formed = SPriors <-> ps <> [] /\ constrained = false).
+Proof. exact (spe_view_random_routes ps constrained init obs open formed). Qed.
+Print Assumptions C10_spe_view_random_routes.
+
+(* the search variant: its initialisation sequence, and every random route of the SPE request its exploitation phase delegates to *)
+Theorem C10_spe_search_view_random_routes {A} (ps : list A) constrained ph init obs open formed :
+  ph = SearchInit \/ (ph = SearchExploit /\ (init = true \/ sample_randomly obs open = true \/ formed = false)) ->
+  spe_search_view_sampler ps constrained ph init obs open formed = random_sampler ps constrained /\
+  (spe_search_view_sampler ps constrained ph init obs open formed = SPriors <-> ps <> [] /\ constrained = false).
+Proof. exact (spe_search_view_random_routes ps constrained ph init obs open formed). Qed.
+Print Assumptions C10_spe_search_view_random_routes.
+
+Theorem C10_sample_randomly_spec obs open : sample_randomly obs open = true <-> inject_Z obs <= (17 # 10) * inject_Z open.
+Proof. exact (sample_randomly_spec obs open). Qed.
+Print Assumptions C10_sample_randomly_spec.
+
+(* non-vacuity: priors on an unconstrained domain, past the initialisation phase, 6 observations, no open suggestion, the estimator refused
+   (fewer than 10 observations): the suggestions come from the priors; with 12 observations and a formed estimator they come from the estimator;
+   with 12 observations and 8 open suggestions (12 <= 13.6) from the priors again *)
+Example C10_spe_view_example :
+  spe_view_sampler [Normal (-100) 5; NoPrior] false false 6 0 false = SPriors /\
+  spe_view_sampler [Normal (-100) 5; NoPrior] false false 12 0 true = SEstimator /\
+  spe_view_sampler [Normal (-100) 5; NoPrior] false false 12 8 true = SPriors /\
+  spe_view_sampler [Normal (-100) 5; NoPrior] true false 6 0 false = SQuasi /\
+  spe_search_view_sampler [Normal (-100) 5; NoPrior] false SearchExploit false 6 0 false = SPriors.
+Proof. vm_compute. repeat split; reflexivity. Qed.
+
 (* non-vacuity: 15 configurations, one observed 14 times plus an out-of-domain row, ask 5 *)
 Example C10_example :
   let d := [CInt 0 4; CCat [1; 2; 5]%Z] in
